@@ -26,12 +26,13 @@ def samePending (a b : State) : Bool :=
   (pendingOf a).all fun e => (pendingOf b).any fun e2 => e2.1 == e.1 && e2.2 == e.2
 
 /-- clauses of an `export` line (the block is finished first; `post` is the exported state):
-the document of a reachable state validates, carries no escrow record, lists the farmer records
-in store order, and the state is a between-blocks state -/
-def checkExport (res validate escrow fiorder : String) (post : State) : List String :=
+the document of a reachable state validates, carries exactly the escrow infos of the state in
+ascending proposal-id order (`gescrow`: the document's list, `none` if it did not parse), lists the
+farmer records in store order, and the state is a between-blocks state -/
+def checkExport (res validate : String) (gescrow : Option (List (Nat × Escrow))) (fiorder : String) (post : State) : List String :=
   if res != "ok" then ["clause=endblock-abort"] else
   (if validate == "ok" then [] else ["clause=export-invalid"]) ++
-  (if escrow == "0" then [] else ["clause=export-escrow"]) ++
+  (if gescrow == some (exportEscrow post) then [] else ["clause=export-escrow"]) ++
   (if fiorder == "ok" then [] else ["clause=export-order"]) ++
   (if blockStartB post then [] else ["clause=export-midblock"])
 
@@ -50,6 +51,7 @@ def checkReimport (pre : State) (res same : String) (post : State) : List String
     (if same == "1" then [] else ["clause=reimport-changed-state"]) ++
     (if decide (post.height = pre.height + 1) then [] else ["clause=reimport-height"]) ++
     (if C05.sameMap pre.farmers post.farmers && pre.seq == post.seq then [] else ["clause=reimport-farmers"]) ++
+    (if C05.sameMap pre.cp.escrow post.cp.escrow then [] else ["clause=reimport-escrow"]) ++
     (if pre.pools.all (fun e => (pre.queue.contains (pre.height, e.1)) ||
           (match getPool post e.1 with | some q => C05.sameMap [(e.1, e.2)] [(e.1, q)] | none => false))
         && post.pools.all (fun e => (getPool pre e.1).isSome) then []
